@@ -44,6 +44,102 @@ def class_attrs(idx, ci):
     return out | {"__class__", "__dict__"}
 
 
+def _class_kind(idx, fi, e, depth=0):
+    """'int' / 'list' / 'sliceish' / text for the class expression of a pattern or an isinstance test (tuples of classes, names bound to them)"""
+    if isinstance(e, ast.Name) and depth < 3:
+        v = df.resolve_value(fi.node, e)
+        if v is not e:
+            return _class_kind(idx, fi, v, depth + 1)
+    if isinstance(e, (ast.Tuple, ast.List)):
+        ks = {_class_kind(idx, fi, x, depth + 1) for x in e.elts}
+        return ks.pop() if len(ks) == 1 else "|".join(sorted(ks))
+    if isinstance(e, ast.BinOp) and isinstance(e.op, ast.BitOr):
+        ks = {_class_kind(idx, fi, e.left, depth + 1), _class_kind(idx, fi, e.right, depth + 1)}
+        return ks.pop() if len(ks) == 1 else "|".join(sorted(ks))
+    n = nospace(e)
+    return "int" if n == "int" else ("list" if n == "list" else ("sliceish" if n == "slice" or n.endswith(".ndarray") else n))
+
+
+def index_components(fi):
+    """names that stand for the components of the index argument: {name: axis} from `rows, cols = ids`, `ids[0]`-style bindings and the
+    capture names of two-element sequence patterns"""
+    ids = fi.params[1] if len(fi.params) > 1 else None
+    role = {}
+    for n in df.body_nodes(fi.node):
+        if isinstance(n, ast.Assign) and len(n.targets) == 1:
+            t, v = n.targets[0], n.value
+            if isinstance(t, ast.Tuple) and len(t.elts) == 2 and isinstance(v, ast.Name) and v.id == ids:
+                for ax, e in enumerate(t.elts):
+                    if isinstance(e, ast.Name):
+                        role[e.id] = ax
+            elif isinstance(t, ast.Name) and isinstance(v, ast.Subscript) and isinstance(v.value, ast.Name) and v.value.id == ids and isinstance(v.slice, ast.Constant) and v.slice.value in (0, 1):
+                role[t.id] = v.slice.value
+        elif isinstance(n, ast.match_case) and isinstance(n.pattern, ast.MatchSequence) and len(n.pattern.patterns) == 2:
+            for ax, sub in enumerate(n.pattern.patterns):
+                for q in ast.walk(sub):
+                    if isinstance(q, ast.MatchAs) and q.name:
+                        role[q.name] = ax
+    return role
+
+
+def getitem_forms(idx, gi):
+    """(set of index forms some exit is reached for, does the fall-through raise) -- forms: 'int', 'sliceish', '(k0,k1)' with
+    k in int / list / sliceish / any"""
+    ids = gi.params[1] if len(gi.params) > 1 else None
+    mt = next((n for n in df.body_nodes(gi.node) if isinstance(n, ast.Match)), None)
+
+    def kind_of(pt):
+        if isinstance(pt, ast.MatchAs) and pt.pattern is not None:
+            return kind_of(pt.pattern)
+        if isinstance(pt, ast.MatchAs):
+            return "any"
+        if isinstance(pt, ast.MatchClass):
+            return _class_kind(idx, gi, pt.cls)
+        if isinstance(pt, ast.MatchOr):
+            ks = {kind_of(x) for x in pt.patterns}
+            return "sliceish" if ks == {"sliceish"} else "|".join(sorted(ks))
+        if isinstance(pt, ast.MatchSequence):
+            return "(" + ",".join(kind_of(x) for x in pt.patterns) + ")"
+        return "?"
+    if mt is not None:
+        forms = {kind_of(c.pattern) for c in mt.cases}
+        last = mt.cases[-1]
+        fall = isinstance(last.pattern, ast.MatchAs) and last.pattern.pattern is None and any(isinstance(x, ast.Raise) for st in last.body for x in ast.walk(st))
+        return forms, fall
+    role = index_components(gi)
+    forms = set()
+    exits = [n for n in df.body_nodes(gi.node) if isinstance(n, ast.Return) and n.value is not None]
+    for r in exits:
+        whole, comp = None, {}
+        for t, pol in df.branch_conditions(r, gi.node):
+            if not pol or not (isinstance(t, ast.Call) and isinstance(t.func, ast.Name) and t.func.id == "isinstance" and len(t.args) == 2):
+                if pol and isinstance(t, ast.BoolOp) and isinstance(t.op, ast.And):
+                    parts = t.values
+                else:
+                    continue
+            else:
+                parts = [t]
+            for q in parts:
+                if not (isinstance(q, ast.Call) and isinstance(q.func, ast.Name) and q.func.id == "isinstance" and len(q.args) == 2):
+                    continue
+                who, k = q.args[0], _class_kind(idx, gi, q.args[1])
+                if isinstance(who, ast.Name) and who.id == ids:
+                    whole = k
+                elif isinstance(who, ast.Name) and who.id in role:
+                    comp[role[who.id]] = k
+                elif isinstance(who, ast.Subscript) and isinstance(who.value, ast.Name) and who.value.id == ids and isinstance(who.slice, ast.Constant) and who.slice.value in (0, 1):
+                    comp[who.slice.value] = k
+        if comp:
+            forms.add("(" + comp.get(0, "any") + "," + comp.get(1, "any") + ")")
+        elif whole is not None:
+            forms.add(whole)
+    if not forms:
+        return None, False
+    body = [st for st in gi.node.body if not (isinstance(st, ast.Expr) and isinstance(st.value, ast.Constant))]
+    fall = bool(body) and (isinstance(body[-1], ast.Raise) or (isinstance(body[-1], ast.If) and not df._terminates([body[-1]]) is False and any(isinstance(x, ast.Raise) for x in ast.walk(body[-1]))))
+    return forms, fall
+
+
 def run(idx, rep, tier):
     if not idx.has_cls("LinearOperator") or not idx.has_cls("Sliced"):
         rep.missing_anchor("LinearOperator / Sliced")
@@ -54,9 +150,6 @@ def run(idx, rep, tier):
         rep.missing_anchor("LinearOperator.__getitem__")
         return
     match = next((n for n in df.body_nodes(gi.node) if isinstance(n, ast.Match)), None)
-    if match is None:
-        rep.missing_anchor("match statement of __getitem__")
-        return
     # ---- 1. canonical vectors: every product `<op> @ e` of the base class whose right operand is a canonical basis vector (built
     # in place, bound to a local first, or returned by a helper method such as self._basis_vector(i, axis=-2)) has the length of
     # the dimension that `<op>` contracts
@@ -113,36 +206,23 @@ def run(idx, rep, tier):
                     rep.refuted("attribute-exists", f"LinearOperator.{m.name}:self.{n.attr}", f"`self.{n.attr}` is read in a base-class method but only wrapper kinds define `{n.attr}`: "
                                 "AttributeError on every other operator kind", detail="missing", locs=[idx.loc(m.module, n)])
     rep.count("attribute-exists", proved=n_reads, nontrivial=1)
-    # ---- 5. case coverage
-    def kind_of(pt):
-        if isinstance(pt, ast.MatchAs) and pt.pattern is not None:
-            return kind_of(pt.pattern)
-        if isinstance(pt, ast.MatchAs):
-            return "any"
-        if isinstance(pt, ast.MatchClass):
-            n = nospace(pt.cls)
-            return "int" if n == "int" else ("list" if n == "list" else ("sliceish" if n == "slice" or n.endswith(".ndarray") else n))
-        if isinstance(pt, ast.MatchOr):
-            ks = {kind_of(x) for x in pt.patterns}
-            return "sliceish" if ks == {"sliceish"} else "|".join(sorted(ks))
-        if isinstance(pt, ast.MatchSequence):
-            return "(" + ",".join(kind_of(x) for x in pt.patterns) + ")"
-        return "?"
-
-    pats = [kind_of(c.pattern) for c in match.cases]
-    need = {
-        "int": "int" in pats,
-        "slice-or-array": "sliceish" in pats,
-        "(b,int)": "(any,int)" in pats,
-        "(int,b)": "(int,any)" in pats,
-        "(slices,slices)": "(sliceish,sliceish)" in pats,
-        "(list,list)": "(list,list)" in pats,
-    }
-    last = match.cases[-1]
-    fall = isinstance(last.pattern, ast.MatchAs) and last.pattern.pattern is None and any(isinstance(x, ast.Raise) for st in last.body for x in ast.walk(st))
-    missing = [k for k, v in need.items() if not v]
-    rep.decide(not missing and fall, "case-coverage", "LinearOperator.__getitem__", f"{len(pats)} arms" + ("" if not missing else f"; no arm for {missing}") + ("; the fall-through raises" if fall else "; the fall-through does not raise"),
-               detail="" if not missing and fall else "arms", locs=[idx.loc(gi.module, match)])
+    # ---- 5. case coverage: the index forms an exit of __getitem__ is reached for, whether the forms are told apart by a `match`
+    # statement or by isinstance chains (`rows, cols = ids; if isinstance(cols, int): ...`)
+    forms, fall = getitem_forms(idx, gi)
+    if forms is None:
+        rep.undecided("case-coverage", "LinearOperator.__getitem__", "the index forms are not told apart by class patterns or isinstance tests")
+    else:
+        need = {
+            "int": "int" in forms,
+            "slice-or-array": "sliceish" in forms,
+            "(b,int)": "(any,int)" in forms,
+            "(int,b)": "(int,any)" in forms,
+            "(slices,slices)": "(sliceish,sliceish)" in forms,
+            "(list,list)": "(list,list)" in forms,
+        }
+        missing = [k for k, v in need.items() if not v]
+        rep.decide(not missing and fall, "case-coverage", "LinearOperator.__getitem__", f"{len(forms)} arms" + ("" if not missing else f"; no arm for {missing}") +
+                   ("; the fall-through raises" if fall else "; the fall-through does not raise"), detail="" if not missing and fall else "arms", locs=[idx.loc(gi.module, match or gi.node)])
     # ---- 3. Sliced
     sl = idx.cls("Sliced")
     init, mm, rm = sl.methods.get("__init__"), sl.methods.get("_matmat"), sl.methods.get("_rmatmat")
@@ -263,80 +343,68 @@ def run(idx, rep, tier):
     # ---- 3a. every __getitem__ (base class and overrides): two integer indices bound by a pattern are never compared raw --
     # i and j name the same position also when one is negative (D[-1, n-1]), so `i == j` is not "on the diagonal"
     n_getitem = 0
-    for ci in idx.operator_classes():
-        g = ci.methods.get("__getitem__")
-        if g is None:
-            continue
-        n_getitem += 1
-        for case in [c for m_ in df.body_nodes(g.node) if isinstance(m_, ast.Match) for c in m_.cases]:
-            ints = [p_.patterns[0].name for p_ in ast.walk(case.pattern) if isinstance(p_, ast.MatchClass) and nospace(p_.cls) == "int" and p_.patterns and isinstance(p_.patterns[0], ast.MatchAs)
-                    and p_.patterns[0].name]
-            if len(ints) < 2:
-                continue
-            for st in case.body:
-                for cmp_ in [x for x in ast.walk(st) if isinstance(x, ast.Compare) and len(x.ops) == 1 and isinstance(x.ops[0], (ast.Eq, ast.NotEq))]:
-                    l, r = cmp_.left, cmp_.comparators[0]
-                    if isinstance(l, ast.Name) and isinstance(r, ast.Name) and {l.id, r.id} <= set(ints) and l.id != r.id:
-                        rep.refuted("index-alias", f"{ci.name}.__getitem__", f"`{nospace(cmp_)}` compares two integer indices as given: a negative and a non-negative index that name the same "
-                                    f"position ({ci.name}[-1, n-1]) compare unequal", detail="raw-compare", locs=[idx.loc(g.module, cmp_)])
-    rep.count("index-alias", proved=n_getitem)
-    # ---- 3a'. AXIS ROLES of index variables: in `A[r, c]` the first component indexes rows (axis 0), the second columns (axis 1); the role
-    # is inherited through zip-iteration and plain copies.  An index of one axis is never reduced modulo / compared with the LENGTH of
-    # the other axis (on a non-square operator two different columns would be identified, or a valid index rejected).
     n_axis = 0
     for ci in idx.operator_classes():
         g = ci.methods.get("__getitem__")
         if g is None:
             continue
-        for case in [c for m_ in df.body_nodes(g.node) if isinstance(m_, ast.Match) for c in m_.cases]:
-            pat = case.pattern
-            if not (isinstance(pat, ast.MatchSequence) and len(pat.patterns) == 2):
-                continue
-            role = {}
-            for ax, sub in enumerate(pat.patterns):
-                for q in ast.walk(sub):
-                    if isinstance(q, ast.MatchAs) and q.name:
-                        role[q.name] = ax
-            changed = True
-            while changed:
-                changed = False
-                for n in [x for st in case.body for x in ast.walk(st)]:
-                    if isinstance(n, (ast.For, ast.comprehension)) and isinstance(n.target, ast.Tuple) and isinstance(n.iter, ast.Call) and isinstance(n.iter.func, ast.Name) and n.iter.func.id == "zip":
-                        for t, a_ in zip(n.target.elts, n.iter.args):
-                            if isinstance(t, ast.Name) and isinstance(a_, ast.Name) and a_.id in role and role.get(t.id) != role[a_.id]:
-                                role[t.id] = role[a_.id]
-                                changed = True
-                    elif isinstance(n, (ast.For, ast.comprehension)) and isinstance(n.target, ast.Name) and isinstance(n.iter, ast.Name) and n.iter.id in role and role.get(n.target.id) != role[n.iter.id]:
-                        role[n.target.id] = role[n.iter.id]
-                        changed = True
-                    elif isinstance(n, ast.Assign) and len(n.targets) == 1 and isinstance(n.targets[0], ast.Name) and isinstance(n.value, ast.Name) and n.value.id in role \
-                            and role.get(n.targets[0].id) != role[n.value.id]:
-                        role[n.targets[0].id] = role[n.value.id]
-                        changed = True
+        n_getitem += 1
+        role = index_components(g)
+        # integer-typed index names: `int(i)` class patterns and isinstance(x, int) tests
+        ints = {p_.patterns[0].name for p_ in ast.walk(g.node) if isinstance(p_, ast.MatchClass) and nospace(p_.cls) == "int" and p_.patterns and isinstance(p_.patterns[0], ast.MatchAs)
+                and p_.patterns[0].name}
+        ints |= {c.args[0].id for c in df.calls(g.node) if isinstance(c.func, ast.Name) and c.func.id == "isinstance" and len(c.args) == 2 and isinstance(c.args[0], ast.Name)
+                 and nospace(c.args[1]) == "int"}
+        body_nodes = list(df.body_nodes(g.node))
+        changed = True
+        while changed:
+            changed = False
+            for n in body_nodes:
+                if isinstance(n, (ast.For, ast.comprehension)) and isinstance(n.target, ast.Tuple) and isinstance(n.iter, ast.Call) and isinstance(n.iter.func, ast.Name) and n.iter.func.id == "zip":
+                    for t, a_ in zip(n.target.elts, n.iter.args):
+                        if isinstance(t, ast.Name) and isinstance(a_, ast.Name) and a_.id in role and role.get(t.id) != role[a_.id]:
+                            role[t.id] = role[a_.id]
+                            changed = True
+                elif isinstance(n, (ast.For, ast.comprehension)) and isinstance(n.target, ast.Name) and isinstance(n.iter, ast.Name) and n.iter.id in role and role.get(n.target.id) != role[n.iter.id]:
+                    role[n.target.id] = role[n.iter.id]
+                    changed = True
+                elif isinstance(n, ast.Assign) and len(n.targets) == 1 and isinstance(n.targets[0], ast.Name) and isinstance(n.value, ast.Name) and n.value.id in role \
+                        and role.get(n.targets[0].id) != role[n.value.id]:
+                    role[n.targets[0].id] = role[n.value.id]
+                    changed = True
+        # two integer indices of different axes are never compared raw: i and j name the same position also when one is negative
+        for cmp_ in [x for x in body_nodes if isinstance(x, ast.Compare) and len(x.ops) == 1 and isinstance(x.ops[0], (ast.Eq, ast.NotEq))]:
+            l, r = cmp_.left, cmp_.comparators[0]
+            if isinstance(l, ast.Name) and isinstance(r, ast.Name) and l.id != r.id and {l.id, r.id} <= ints and role.get(l.id) is not None and role.get(r.id) is not None \
+                    and role[l.id] != role[r.id]:
+                rep.refuted("index-alias", f"{ci.name}.__getitem__", f"`{nospace(cmp_)}` compares two integer indices as given: a negative and a non-negative index that name the same "
+                            f"position ({ci.name}[-1, n-1]) compare unequal", detail="raw-compare", locs=[idx.loc(g.module, cmp_)])
 
-            def axis_of_length(e):
-                """self.shape[k] (k = 0, 1, -1, -2) -> axis"""
-                if isinstance(e, ast.Subscript) and nospace(e.value) == "self.shape":
-                    k = e.slice
-                    v = k.value if isinstance(k, ast.Constant) else (-k.operand.value if isinstance(k, ast.UnaryOp) and isinstance(k.op, ast.USub) and isinstance(k.operand, ast.Constant) else None)
-                    return {0: 0, 1: 1, -1: 1, -2: 0}.get(v)
-                return None
-            for n in [x for st in case.body for x in ast.walk(st)]:
-                pairs = []
-                if isinstance(n, ast.BinOp) and isinstance(n.op, ast.Mod):
-                    pairs.append((n.left, n.right, "reduced modulo"))
-                elif isinstance(n, ast.Compare) and len(n.ops) == 1 and isinstance(n.ops[0], (ast.Lt, ast.LtE, ast.Gt, ast.GtE)):
-                    pairs += [(n.left, n.comparators[0], "compared with"), (n.comparators[0], n.left, "compared with")]
-                for idx_e, len_e, what in pairs:
-                    ax = axis_of_length(len_e)
-                    if isinstance(idx_e, ast.UnaryOp):
-                        idx_e = idx_e.operand
-                    if ax is None or not isinstance(idx_e, ast.Name) or idx_e.id not in role:
-                        continue
-                    n_axis += 1
-                    ok = role[idx_e.id] == ax
-                    rep.decide(ok, "index-alias", f"{ci.name}.__getitem__:axis#{n_axis}", f"`{nospace(n)}`: an index of axis {role[idx_e.id]} is {what} the length of axis {ax}" +
-                               ("" if ok else ": on a non-square operator different positions are identified (or valid ones rejected)"), detail="" if ok else "wrong-axis", locs=[idx.loc(g.module, n)])
+        def axis_of_length(e):
+            """self.shape[k] (k = 0, 1, -1, -2) -> axis"""
+            if isinstance(e, ast.Subscript) and nospace(e.value) == "self.shape":
+                k = e.slice
+                v = k.value if isinstance(k, ast.Constant) else (-k.operand.value if isinstance(k, ast.UnaryOp) and isinstance(k.op, ast.USub) and isinstance(k.operand, ast.Constant) else None)
+                return {0: 0, 1: 1, -1: 1, -2: 0}.get(v)
+            return None
+        # an index of one axis is never reduced modulo / compared with the LENGTH of the other axis
+        for n in body_nodes:
+            pairs = []
+            if isinstance(n, ast.BinOp) and isinstance(n.op, ast.Mod):
+                pairs.append((n.left, n.right, "reduced modulo"))
+            elif isinstance(n, ast.Compare) and len(n.ops) == 1 and isinstance(n.ops[0], (ast.Lt, ast.LtE, ast.Gt, ast.GtE)):
+                pairs += [(n.left, n.comparators[0], "compared with"), (n.comparators[0], n.left, "compared with")]
+            for idx_e, len_e, what in pairs:
+                ax = axis_of_length(len_e)
+                if isinstance(idx_e, ast.UnaryOp):
+                    idx_e = idx_e.operand
+                if ax is None or not isinstance(idx_e, ast.Name) or idx_e.id not in role:
+                    continue
+                n_axis += 1
+                ok = role[idx_e.id] == ax
+                rep.decide(ok, "index-alias", f"{ci.name}.__getitem__:axis#{n_axis}", f"`{nospace(n)}`: an index of axis {role[idx_e.id]} is {what} the length of axis {ax}" +
+                           ("" if ok else ": on a non-square operator different positions are identified (or valid ones rejected)"), detail="" if ok else "wrong-axis", locs=[idx.loc(g.module, n)])
+    rep.count("index-alias", proved=n_getitem)
     # ---- 3b. SLICE-ROLE: wherever the stored index objects are materialised (arange(N)[s], s.indices(N)), N is the parent's dimension
     from sa.slicerole import slice_role_obligations
     core = frozenset(idx.core_modules())
